@@ -1497,6 +1497,112 @@ def run_lessons_parallel(ctx, lrng, derived):
 
 
 # --------------------------------------------------------------------------------------
+# audit follow-up: composition / undo through TWO real calls, and resolution_delta on RAW unit strings
+# --------------------------------------------------------------------------------------
+
+def stream_compose(ctx, rng, n):
+    """clause "composes additively and is undone by adding -k": r2 = add_months(add_months(d, j), k) and
+    back = add_months(add_months(d, k), -k) through the real float path (an intermediate result that missed the month end by
+    a float hair would show). Spec.composeOk / Spec.undoOk (theorems spec_compose / spec_undo) on month-end starts of EVERY
+    year in 1900-2100; non-month-end starts: model comparison only (the property says "where")."""
+    items, impl, meta = [], [], []
+    ks = [0, 1, -1, 2, 3, -3, 6, 11, 12, -12, 13, 24, -25, 59, 120, -240, 599]
+    for i in range(n):
+        u = rng.random()
+        if u < 0.75:
+            d = month_end_of_id(rng.randrange(PRE_IDLO + 620, IDHI - 620) if u < 0.2 else rng.randrange(IDLO + 620, IDHI - 620)
+                                if u < 0.6 else rng.choice([mid(D(y, 2, 1)) for y in (1972, 2000, 2023, 2024, 2096)]))
+        else:
+            d = D.fromordinal(rand_date(rng, D(2022, 1, 1).toordinal(), D(2048, 12, 31).toordinal()))
+        j, k = rng.choice(ks), rng.choice(ks)
+        if rng.random() < 0.3:
+            j, k = rng.randrange(-300, 301), rng.randrange(-300, 301)
+        if not (PRE_IDLO <= mid(d) + j <= IDHI and PRE_IDLO <= mid(d) + j + k <= IDHI and PRE_IDLO <= mid(d) + k <= IDHI):
+            continue
+        if not is_month_end(d) and min(mid(d) + j, mid(d) + k, mid(d) + j + k) < 0:
+            continue                                    # non-month-ends into months before 1970: finding D8
+        s1, r1 = call(du.add_months, d, j)
+        s2, r2 = call(du.add_months, r1, k) if s1 == "ok" else (s1, r1)
+        s3, f1 = call(du.add_months, d, k)
+        s4, back = call(du.add_months, f1, -k) if s3 == "ok" else (s3, f1)
+        s5, r12 = call(du.add_months, d, j + k)
+        case = {"call": "add_months(add_months(d, j), k); add_months(add_months(d, k), -k)", "d": w_date(d), "j": j, "k": k}
+        if "err" in (s2, s4, s5):
+            ctx.fail("add_months raised on an in-range date and integer month offsets", case, {"raised": [r2, back, r12]})
+            continue
+        if is_month_end(d) and r2 != r12:
+            ctx.fail("add_months(add_months(d, j), k) != add_months(d, j + k) for a month end d", case,
+                     {"two_calls": w_date(r2), "one_call": w_date(r12)})
+        items.append(w_date(d) + [j, k])
+        impl.append([w_date(r2), w_date(back)])
+        meta.append(case)
+        ctx.case(digest=f"compose/{d.toordinal()}/{j}/{k}", sample=case if i == 0 else None)
+        ctx.count("compose/" + ("month-end start" + (" before 1970" if d.year < 1970 else "") if is_month_end(d)
+                                else "non-month-end start (model only)"))
+    out = common.Driver(DRV).run([{"op": "compose", "items": items, "impl": impl}])[0]
+    n_fail = 0
+    for case, im, mo, sp in zip(meta, impl, out["model"], out["spec"]):
+        if sp is False:
+            n_fail += 1
+            if n_fail <= 12:
+                ctx.fail("month-end arithmetic does not compose / is not undone by -k (Spec.composeOk, Spec.undoOk)", case,
+                         {"impl": im, "model": mo})
+        elif im != mo:
+            ctx.disagree("add_months twice (compose / undo)", case, mo, im)
+
+
+RAW_UNITS = ["month", "day", "days", "months", "Month", "MONTH", "month ", "quarter", "quarters", "year", "years", "week",
+             "weeks", "Day", "bogus", ""]
+
+
+def stream_resolution_raw(ctx, rng, n):
+    """resolution_delta called the way the library's own callers call it — with a RAW unit string, no standardize_resolution
+    ((-1, "days") in io/matrix.py, io/rich_matrix.py, utils/basis.py). The function compares `units == "month"`; every other
+    string is day arithmetic with the unscaled quantity (model `resolutionDeltaRaw`, theorems resolutionDeltaRaw_month /
+    _other / _days). Spec verdict for "month" (month arithmetic) and the day spellings "day" / "days" (day arithmetic);
+    the other raw spellings ("months", "quarter", "year", "week", ...) are compared with the model only and counted: whether
+    `(1, "months")` -> +1 DAY is acceptable is a question about the function's precondition, reported to the lead."""
+    items, impl, meta = [], [], []
+    for i in range(n):
+        d = D.fromordinal(rand_date(rng, ORD_1970 + 800, ORD_2100 - 800)) if rng.random() < 0.6 else \
+            month_end_of_id(rng.randrange(IDLO + 30, IDHI - 30))
+        units = RAW_UNITS[i % len(RAW_UNITS)]
+        q = rng.choice([1, 1, 2, 3, 7, 12, 28, 31, rng.randrange(0, 400)])
+        neg = rng.random() < 0.4
+        res = (q, units)
+        if units == "month" and not (0 <= mid(d) + (-q if neg else q) <= IDHI):
+            continue                                    # target month before 1970 (finding D8) or beyond 2100
+        negs = rng.choice(["pos", "omit", "kw"]) if not neg else rng.choice(["pos", "kw"])
+        if negs == "omit":
+            st, r = call(du.resolution_delta, d, res)
+        elif negs == "kw":
+            st, r = call(du.resolution_delta, date=d, resolution=res, negative=neg)
+        else:
+            st, r = call(du.resolution_delta, d, res, neg)
+        case = {"call": "resolution_delta(d, (q, RAW units), negative)", "d": w_date(d), "resolution": [q, units], "negative": neg}
+        if st != "ok":
+            ctx.fail("resolution_delta raised on a raw unit string (it never validates the unit)", case, {"raised": r})
+            continue
+        items.append(w_date(d) + [q, units, neg])
+        impl.append(w_date(r))
+        meta.append(case)
+        ctx.case(digest=f"resraw/{d.toordinal()}/{q}/{units}/{neg}", sample=case if i == 0 else None)
+        kind = "'month'" if units == "month" else "a day spelling (library's own raw calls)" if units in ("day", "days") \
+            else "other raw unit -> day arithmetic, unscaled (model only)"
+        ctx.count(f"resolutionRaw/{kind}")
+    out = common.Driver(DRV).run([{"op": "resolutionRaw", "items": items, "impl": impl}])[0]
+    n_fail = 0
+    for case, im, mo, sp in zip(meta, impl, out["model"], out["spec"]):
+        if sp is False:
+            n_fail += 1
+            if n_fail <= 12:
+                ctx.fail("resolution_delta(d, (q, 'month')) is not add_months / (q, 'day' | 'days') is not day arithmetic", case,
+                         {"impl": im, "model": mo})
+        elif im != mo:
+            ctx.disagree("resolution_delta on a raw unit string", case, mo, im)
+
+
+# --------------------------------------------------------------------------------------
 
 def correspondence(ctx):
     rng = ctx.rng
@@ -1581,6 +1687,13 @@ def correspondence(ctx):
     stream_resolution(ctx, rng, 30_000 if ctx.thorough else 6_000,
                       lessons=lesson_resolution_cases(lesson_rng(ctx, "resolution")) if lessons else ())
 
+    # ---- (4b) audit follow-up streams (own random streams; the ones above draw what they drew before) ----------
+    import random as _random
+    _t0 = time.time()
+    stream_compose(ctx, _random.Random(f"C12/compose/{ctx.seed}"), 12_000 if ctx.thorough else 2_500)
+    stream_resolution_raw(ctx, _random.Random(f"C12/resolutionRaw/{ctx.seed}"), 8_000 if ctx.thorough else 1_600)
+    ctx.notes.append(f"compose + raw-resolution streams: {time.time() - _t0:.1f}s")
+
     # ---- (5) lesson cases of add_months / the inverse law ----------------------------------------
     if lessons:
         stream_lesson_state(ctx, tables_before)
@@ -1619,7 +1732,10 @@ if __name__ == "__main__":
              "period_start with several ends, twins; resolution_delta: every spelling x sign x month-end / non-month-end "
              "start, zero / negative / float / bool / numpy quantities, list argument (input unchanged), negative omitted / "
              "keyword / int, large quantities, twins; id_to_month with truthy / falsy non-bool flags, numpy ids; leap / "
-             "non-leap probes with the module-level tables of bermuda.date_utils and calendar compared before / after",
+             "non-leap probes with the module-level tables of bermuda.date_utils and calendar compared before / after. "
+             "AUDIT streams: compose/undo through two real calls (month-end starts 1900-2100 judged by Spec.composeOk/undoOk, "
+             "non-month-end starts model only); resolution_delta on RAW unit strings (16 spellings; 'month' and 'day'/'days' "
+             "judged, other raw units compared with the model resolutionDeltaRaw only)",
         assumptions=["dates within 1900-01-01..2100-12-31 (the theorems hold for all dates from 1970 on; the tie between "
                      "floating point code and exact model is enumeration on the stated range)",
                      "the date.max sentinel (evaluation_date == date.max -> inf / timedelta.max before the unit dispatch; "
@@ -1628,6 +1744,10 @@ if __name__ == "__main__":
                      "compared in the `sentinel` stream; NaN and -inf deltas are outside the property",
                      "float month lags are compared with the exact model lag with tolerance 2^-40*max(1,|lag|); "
                      "dates, day lags and month-end lags are compared exactly",
+                     "resolution_delta is judged on the output of standardize_resolution and on the raw units 'month', 'day', 'days'; "
+                     "for any other RAW unit string the function does day arithmetic with the unscaled quantity ((1,'months'), "
+                     "(1,'quarter'), (1,'week') add ONE day; theorems resolutionDeltaRaw_other / _unstandardized_units) — "
+                     "compared with the model, not judged against the property (callers are expected to standardise first)",
                      "non-integer offsets: the exact model and the double arithmetic of add_months pick different (equally "
                      "near) days when frac*days_in_month is a round() tie reached through a non-dyadic day fraction "
                      "(add_months(1970-01-01, 11.5): 1970-12-17, exact model 1970-12-16); such inputs are counted "
